@@ -103,6 +103,10 @@ inductive CI where
   | loadPending           -- `pending()` before wiring the tracer
   deriving DecidableEq, Repr, Inhabited
 
+def CI.isCharge : CI → Bool
+  | CI.charge _ => true
+  | _ => false
+
 /-- what the walker still has to do -/
 inductive WAct where
   | store (x : Nat)                   -- blocking waiter: `flag.store(true)`
@@ -359,7 +363,7 @@ def cstep (s : State) (t : Nat) (i : CI) (is : List CI) : State × List Ev :=
   | CI.xchgTmp => (setPc s t (Pc.cRun is), [Ev.opXchgTmp t])
   | CI.loadTmp => ({ setPc s t (Pc.cRun is) with published := true }, [Ev.opLoadTmp t])
   | CI.loadPending =>
-      if s.slot = Slot.ready then (setPc (touch s) t (Pc.cRun (is.drop 1)), [Ev.opLoadSlot t Seen.ready])
+      if s.slot = Slot.ready then (setPc (touch s) t (Pc.cRun (is.filter (fun i => !i.isCharge))), [Ev.opLoadSlot t Seen.ready])
       else (setPc (touch s) t (Pc.cRun is), [Ev.opLoadSlot t s.slot.seen])
   | CI.charge exp =>
       match s.slot with
